@@ -1359,8 +1359,12 @@ def c14_runner(prop, tier, seed, scratch, spec):
             pred[(f[1], f[2], f[3] == "ref")] = {"rejected": f[4] == "rejected=true", "mapped": f[5] == "mapped=true"}
         elif f[0] == "SEND":
             send[f[1]] = f[2] == "notSend=true"
+    if rc != 0 or not pred:
+        p = vlib.write_replay(prop, "no-predictions", [], {"broken": "the Lean driver japi printed no predictions (rc=%s): %s" % (rc, e[-300:])})
+        return {"violations": [(p, "the model's predictions could not be computed", " no-failing-input-found")], "coverage": {"evaluations": 0, "distinct_nontrivial": 0}, "explored": 0, "known": []}
     methods = json.load(open(os.path.join(vlib.WORK, "api-methods.json"))) if os.path.exists(os.path.join(vlib.WORK, "api-methods.json")) else []
     no_table = not methods
+    unpredicted = []
     wd = os.path.join(scratch.dir, "api")
     os.makedirs(wd, exist_ok=True)
     jobs = []
@@ -1377,7 +1381,10 @@ def c14_runner(prop, tier, seed, scratch, spec):
             continue
         name = "esc-%s-%s%s" % (m["owner"], m["name"], "-ref" if m["forRef"] else "")
         src = apicheck.escape_program(m["owner"], m["name"], m["forRef"], call, os.path.join(scratch.dbdir, name + ".db"))
-        p_ = pred.get((m["owner"], m["name"], m["forRef"]), {"rejected": None, "mapped": None})
+        p_ = pred.get((m["owner"], m["name"], m["forRef"]))
+        if p_ is None:
+            unpredicted.append(name)      # never default a missing prediction to "accept"
+            continue
         jobs.append((name, src, "reject" if p_["rejected"] else "accept", p_["mapped"], "generated"))
     for name, (exp, body) in apicheck.HANDWRITTEN.items():
         src = apicheck.PRELUDE + "\nfn main() {\n    " + body.replace("$P", os.path.join(scratch.dbdir, name + ".db")) + "\n}\n"
@@ -1412,6 +1419,9 @@ def c14_runner(prop, tier, seed, scratch, spec):
     if no_table:
         rp = vlib.write_replay(prop, "no-api-table", [], {"broken": "the regenerated public API table is missing or empty: only the hand-written programs were run"})
         violations.append((rp, "the public API table could not be regenerated: the per-method escape programs were not run", " no-failing-input-found"))
+    if unpredicted:
+        rp = vlib.write_replay(prop, "unpredicted-api", [], {"broken": "the Lean driver printed no prediction for these table rows", "methods": unpredicted})
+        violations.append((rp, "no model prediction for: %s" % ", ".join(unpredicted[:6]), " no-failing-input-found"))
     if unclassified:
         rp = vlib.write_replay(prop, "unclassified-api", [], {"broken": "public methods without an escape program template (tools/apicheck.py CALLS)", "methods": unclassified})
         violations.append((rp, "new public API not covered: %s" % ", ".join(unclassified), " no-failing-input-found"))
